@@ -82,10 +82,11 @@ def run(chk, tier, replay):
                         "TLC; WriterTrace.tla/Writer.tla; harness h_file copies bytes only"]
     hs = histories(chk, tier)
     cfgs = configs(tier)
-    execs, meta, files, faults = wcommon.run_histories(chk, hs, cfgs, modes=("f",), with_file=False)
+    # read back twice: the whole chunk in one call (fread) and in pieces of 3 rows (buffer)
+    execs, meta, files, faults = wcommon.run_histories(chk, hs, cfgs, modes=("f", "b3"), with_file=False)
     mp = many_page_histories(chk, tier)
     mcfgs = [(0, 1), (1, 1)] if tier == "quick" else [(0, 1), (1, 1), (6, 1), (5, 24)]
-    e2, m2, _, _ = wcommon.run_histories(chk, mp, mcfgs, modes=("f", "m"), with_file=False, label="p")
+    e2, m2, _, _ = wcommon.run_histories(chk, mp, mcfgs, modes=("f", "m", "b2"), with_file=False, label="p")
     execs += e2
     meta.update(m2)
     hs = hs + mp
